@@ -69,6 +69,7 @@ template <class X> void run(Ctx& c, uint64_t idx) {
     Str s;
     for (int tries = 0; tries < 20; tries++) { s = idx < gdegenerate_count() / 7 ? gdegenerate_case(idx * 7 + (uint64_t)tries) : gen_uri(r, o); size_t e; if (dfa_uriref(s, &e)) break; s.clear(); }
     if (b.parse(s) != URI_SUCCESS) { c.count("skipped_invalid"); return; }
+    if (!b.faithful()) { c.count("skipped_unfaithful_parse"); return; }
     c.note(fmt("%s tostring \"%s\"", X::tag(), esc(s.substr(0, 200)).c_str()));
     int kind = r.below(5);
     Str origin = "parsed";
